@@ -407,11 +407,6 @@ impl State {
         )
     }
 
-    /// Returns true for a stream the peer has promised but not yet opened
-    pub fn is_reserved_remote(&self) -> bool {
-        matches!(self.inner, ReservedRemote)
-    }
-
     /// Returns true when the stream is in a state to receive headers
     pub fn is_recv_headers(&self) -> bool {
         matches!(
